@@ -23,3 +23,11 @@ claim("C12", "DESIGN.md 3/C12",
       "every series of length 1..4 (thorough 5) x 5 regular/irregular time axes x both check types x whole-series and windowed modes x min_obs/min_period settings x threshold pairs on both sides of (and, for range, exactly on) the spread, compared per point with the scalar reference",
       "std within 1e-9 of a threshold skipped (statement excludes it); range windows holding a missing value accept UNKNOWN too",
       TECH_TREE)
+claim("C13", "DESIGN.md 3/C13",
+      "every density series of length 1..4 (thorough 5) x every depth profile from steps {+1,0,-1} x 25 threshold pairs (+ every placement of 1-2 missing depths x 9 pairs) for density_inversion_test, and every pressure series of length 0..6 (thorough 8) over 4 levels, compared per point with the scalar reference; profile and reversed profile are both in the space (mirror relation)",
+      "zero-mean pressure profiles and NaN pressures not judged; trusts refmodel/qc.py",
+      TECH_TREE)
+claim("C14", "DESIGN.md 3/C14",
+      "every track of length<=2 over 36 positions around the box (length 3 over a 16-position sub-grid and over a 10-position globe menu; thorough: 3 over all 36) x 5 box spellings x range_max on both sides of and exactly on every hop distance, plus malformed boxes and unequal lengths, compared per point with the scalar reference",
+      "trusts geographiclib as the distance oracle (explicit lat/lon per pair)",
+      TECH_TREE)
